@@ -779,7 +779,7 @@ def case_strategy():
             steps = list(steps)
             steps.insert(pos % (len(steps) + 1), extra)
         return {"steps": steps}
-    return st.builds(ensure, st.lists(st.one_of(valid, valid, inj), min_size=3, max_size=24), inj, st.integers(0, 30))
+    return st.builds(ensure, st.lists(st.one_of(valid, valid, inj), min_size=10, max_size=24), inj, st.integers(0, 30))
 
 
 def shards(tier, seed):
